@@ -515,8 +515,59 @@ fn c38_main(args: &Args) -> i32 {
     // end to end: a real trust anchor certificate behind an https TAL URI, whole validation runs
     for (name, limit) in [("none", None), ("small", Some(SMALL_LIMIT)), ("default", Some(default_limit))] {
         c38_end_to_end(&mut rep, &factory, name, limit);
+        c38_rsync(&mut rep, &factory, name, limit);
     }
     rep.write(args)
+}
+
+/// The rsync transport: Routinator does not see the objects before rsync has written them, the limit is enforced by
+/// rsync itself.  What can be checked is that the limit reaches the command line exactly: one `--max-size=<L>` with a
+/// limit, none without (SizeGate.tla, RsyncArgs).  The fake rsync is spawned as a process here and logs its arguments.
+fn c38_rsync(rep: &mut Report, factory: &Factory, name: &str, limit: Option<u64>) {
+    let bed = TestBed::new_spawning();
+    let mut ta = Ca::new("ca1", None, 0, "rsync://sz.verif.test/repo/ca1/");
+    ta.prefixes = vec!["10.0.0.0/8".into()];
+    ta.asns = vec![(64000, 65000)];
+    ta.objects.push(Obj { name: "o1.roa".into(), kind: ObjKind::Roa { asn: 64501, prefixes: vec![("10.1.0.0/16".into(), 16)] },
+        serial: 11, validity: (-2, 48), fault: Fault::None });
+    let world = World { tals: vec![Tal { name: "tal1".into(), ca: 0, uris: vec![("rsync://sz.verif.test/repo/ta1.cer".into(), TaVariant::Good)] }], cas: vec![ta] };
+    bed.publish(&world.build(factory));
+    let mut cfg = bed.config();
+    cfg.max_object_size = limit;
+    // Routinator's own rsync arguments (rsync-args unset; given arguments replace the defaults, limit included, by
+    // design): the rsync command is a script that answers `-h` and hands everything else to the fake rsync
+    let script = bed.dir.path().join("rsync.sh");
+    let exe = std::env::current_exe().expect("current exe");
+    std::fs::write(&script, format!("#!/bin/sh\nif [ \"$1\" = \"-h\" ]; then echo 'fake rsync --contimeout'; exit 0; fi\nexec '{}' fake-rsync '{}' \"$@\"\n",
+        exe.display(), bed.dir.path().display())).expect("script");
+    {
+        use std::os::unix::fs::PermissionsExt;
+        let _ = std::fs::set_permissions(&script, std::fs::Permissions::from_mode(0o755));
+    }
+    cfg.rsync_command = script.to_string_lossy().into_owned();
+    cfg.rsync_args = None;
+    // spawn the command (no in-process replacement), whatever other beds installed
+    routinator::verif::set_rsync_override(None);
+    let res = crate::env::run_once(&cfg, true, &routinator::slurm::LocalExceptions::empty());
+    crate::env::install_inproc_rsync_again();
+    let log = std::fs::read_to_string(bed.dir.path().join("rsync-args.log")).unwrap_or_default();
+    let ctx = json!({"transport": "rsync", "limit": limit});
+    rep.eval(C38);
+    let calls: Vec<&str> = log.lines().collect();
+    if res.is_err() || calls.is_empty() {
+        rep.divergence(C38, format!("rsync/limit-{name}: no rsync command line was recorded (run ok: {})", res.is_ok()));
+        return
+    }
+    rep.nontrivial(C38, format!("rsync-args|{name}"));
+    for call in calls.iter() {
+        let sizes: Vec<&str> = call.split(' ').filter(|a| a.starts_with("--max-size")).collect();
+        let ok = match limit { None => sizes.is_empty(), Some(l) => sizes == vec![format!("--max-size={l}").as_str()] };
+        if !ok {
+            rep.violation(C38, &format!("rsync/limit-{name}/command-line"),
+                format!("limit {limit:?}: the rsync command line carries {sizes:?}"), ctx.clone(), json!({"command_line": call}));
+            return
+        }
+    }
 }
 
 fn limit_name(l: u64) -> &'static str { match l { 0 => "none", 10 => "small", _ => "default" } }
